@@ -18,8 +18,10 @@ EXPLANATION = ('The stacked cache is explored with the write-side / read-side dy
                'create no named temp file; Promote on a secondary hit copies the hit into a temp file and inserts it with put '
                '(never set) and returns the hit; Replace populates with Some(old), inserts with set and returns a handle on the '
                'new file; a miss populates with None, inserts with put; (R13.4) without a write side the four write APIs reach '
-               'only Err exits, one of kind Unsupported, with no insert, and a miss is served from an anonymous temp file.')
-FLOORS = {'R13.1': 5, 'R13.2': 2, 'R13.3': 9, 'R13.4': 5}
+               'only Err exits, one of kind Unsupported, with no insert, and a miss is served from an anonymous temp file; (R13.5) the '
+               'promoted copy is identical: its source handle is at offset 0 on every path to the copy and its destination is a '
+               'file no one else wrote (= R01.4/R01.5).')
+FLOORS = {'R13.1': 5, 'R13.2': 2, 'R13.3': 9, 'R13.4': 5, 'R13.5': 2}
 
 
 def entry(ctx, name):
@@ -277,6 +279,16 @@ def r13_4(ctx):
     return out
 
 
+def r13_5(ctx):
+    """Promote leaves an *identical* copy: the hit is copied from its first byte (the copy source is rewound on every
+    path to the copy; shared with R01.4) and into a file nothing else has written (shared with R01.5)."""
+    from rules import c01
+    out = []
+    for i in c01.r01_4(ctx) + c01.r01_5(ctx):
+        out.append(inst('R13.5', i['key'].split('|', 1)[1], i['ok'], i['detail'], path=i.get('path') or []))
+    return out
+
+
 def run(ctx):
     from runner import collect
-    return collect(ctx, r13_1, r13_2, r13_3, r13_4)
+    return collect(ctx, r13_1, r13_2, r13_3, r13_4, r13_5)
